@@ -17,6 +17,7 @@ import (
 
 type c20Key struct {
 	Text  string `json:"text,omitempty"`  // characters typed at the cursor
+	Paste bool   `json:"paste,omitempty"` // Text arrives as a bracketed paste
 	Left  int    `json:"left,omitempty"`  // cursor-left pressed this many times
 	Home  bool   `json:"home,omitempty"`  // cursor to the start
 	End   bool   `json:"end,omitempty"`   // cursor to the end
@@ -53,8 +54,8 @@ func c20EditGen(t *rapid.T) c20EditCase {
 				} else {
 					add(c20Key{Left: rapid.IntRange(1, typed).Draw(t, "left"), Ctl: ctl})
 				}
-				x := rapid.SampledFrom([]string{"a", "x", " ", "1", "é", ";", "'", "\"", "b;", "日", "\\"}).Draw(t, "ins")
-				add(c20Key{Text: x})
+				x := rapid.SampledFrom([]string{"a", "x", " ", "1", "é", ";", "'", "\"", "b;", "日", "\\", "hello", "a b c", "x;y", "'q'"}).Draw(t, "ins")
+				add(c20Key{Text: x, Paste: rapid.IntRange(0, 3).Draw(t, "pasted") == 0})
 				typed += len([]rune(x))
 				add(c20Key{End: true, Ctl: rapid.Bool().Draw(t, "ctl2")})
 			}
@@ -99,7 +100,11 @@ func c20EditModel(keys []c20Key) (raw string, want []string) {
 	for _, k := range keys {
 		switch {
 		case k.Text != "":
-			sb.WriteString(k.Text)
+			if k.Paste {
+				sb.WriteString("\x1b[200~" + k.Text + "\x1b[201~")
+			} else {
+				sb.WriteString(k.Text)
+			}
 			r := []rune(k.Text)
 			buf = append(buf[:pos:pos], append(append([]rune{}, r...), buf[pos:]...)...)
 			pos += len(r)
